@@ -188,6 +188,8 @@ def gen_overlap(rng, seed, tier):
                                p_cancel=0.05)
     case = {"program": prog, "layer": "b",
             "strategy": rng.choice([1, 2, 3, 3])}
+    if rng.random() < 0.15:
+        case["oneshot_listeners"] = rng.sample(LISTENER_TYPES, rng.randint(1, 3))
     eids = program.event_ids(prog)
     # commands from handlers
     if rng.random() < 0.35:
